@@ -44,4 +44,64 @@ inductive HReach : HSys → List Ev → List Ev → Prop
       (∀ c k, e ≠ some (.notify c k)) → (∀ w, e ≠ some (.wake w)) →
       HReach { h with σ := σ' } (hs ++ e.toList) (es ++ e.toList)
 
+
+/-! ## the same, executable: a hook-level schedule as a list of actions -/
+
+inductive HAct
+  | hookNotify (p : Tid)            -- verifTrace("bp-notify") of push p
+  | send (p : Tid)                  -- its select { case c <- key: default: }
+  | recv (t : Tid)                  -- case <-c:
+  | hookWake (t : Tid)              -- verifTrace("bp-wake")
+  | other (t : Tid) (ch : Choice)   -- any other transition of the program model
+deriving Repr
+
+def isNotify : Option Ev → Bool
+  | some (.notify _ _) => true
+  | _ => false
+def isWake : Option Ev → Bool
+  | some (.wake _) => true
+  | _ => false
+
+/-- one action: the new state, the event in hook order, the event in operation order -/
+def hstep (h : HSys) : HAct → Option (HSys × Option Ev × Option Ev)
+  | .hookNotify p =>
+    match (h.σ.thr p).todo with
+    | c :: _ =>
+      if (h.σ.thr p).pc = .p4 ∧ h.tickets.all (fun x => x.1 != p) then
+        some ({ h with tickets := (p, c) :: h.tickets }, some (.notify c (h.σ.thr p).key), none)
+      else none
+    | [] => none
+  | .send p =>
+    match h.σ.step p {} with
+    | some (σ', some (.notify c k)) =>
+      if (p, c) ∈ h.tickets then
+        some ({ h with σ := σ', tickets := h.tickets.erase (p, c) }, none, some (.notify c k))
+      else none
+    | _ => none
+  | .recv t =>
+    match h.σ.step t {} with
+    | some (σ', some (.wake w)) =>
+      if w = t ∧ h.unrep t = false then
+        some ({ h with σ := σ', unrep := upd h.unrep t true }, none, some (.wake t))
+      else none
+    | _ => none
+  | .hookWake t =>
+    if h.unrep t then some ({ h with unrep := upd h.unrep t false }, some (.wake t), none) else none
+  | .other t ch =>
+    if h.unrep t then none else
+    match h.σ.step t ch with
+    | some (σ', e) => if isNotify e || isWake e then none else some ({ h with σ := σ' }, e, e)
+    | none => none
+
+/-- run a hook-level schedule: the final state, the events in hook order, the events in operation order -/
+def hexec (h : HSys) : List HAct → Option (HSys × List Ev × List Ev)
+  | [] => some (h, [], [])
+  | a :: rest =>
+    match hstep h a with
+    | none => none
+    | some (h', e1, e2) =>
+      match hexec h' rest with
+      | none => none
+      | some (h'', hs, es) => some (h'', e1.toList ++ hs, e2.toList ++ es)
+
 end NodisVerif.BlockProg
